@@ -30,6 +30,9 @@ func (p *ModuleValuedPolynomial[ME, S]) UnmarshalCBOR(data []byte) error {
 	if err != nil {
 		return errs.Wrap(err)
 	}
+	if dto == nil {
+		return ErrSerialisationFailed.WithMessage("ModuleValuedPolynomial DTO is nil")
+	}
 	if len(dto.Coeffs) == 0 {
 		return ErrSerialisationFailed.WithMessage("empty coefficients")
 	}
@@ -63,6 +66,9 @@ func (p *Polynomial[RE]) UnmarshalCBOR(data []byte) error {
 	dto, err := serde.UnmarshalCBOR[*polynomialDTO[RE]](data)
 	if err != nil {
 		return errs.Wrap(err)
+	}
+	if dto == nil {
+		return ErrSerialisationFailed.WithMessage("Polynomial DTO is nil")
 	}
 	if len(dto.Coeffs) == 0 {
 		return ErrSerialisationFailed.WithMessage("empty coefficients")
